@@ -131,6 +131,19 @@ func (c *FnCtx) builtin(fr *Frame, st *State, b *ssa.Builtin, args []Val, call *
 
 // callFunc: statically known callee (function, method or closure).
 func (c *FnCtx) callFunc(fr *Frame, st *State, fn *ssa.Function, bindings []Val, args []Val, pos token.Pos) *Val {
+	r := c.callFuncInner(fr, st, fn, bindings, args, pos)
+	if r != nil && c.isTracked(fn) && c.eng.specOf(fn) == nil {
+		// lastcall(F) is also available for tracked callees without a contract (inlined or library functions)
+		nv := *r
+		if prev, ok := c.lastCall[fn.Name()]; ok && st.guard != "true" {
+			nv = c.iteVal(st.guard, nv, prev)
+		}
+		c.lastCall[fn.Name()] = nv
+	}
+	return r
+}
+
+func (c *FnCtx) callFuncInner(fr *Frame, st *State, fn *ssa.Function, bindings []Val, args []Val, pos token.Pos) *Val {
 	resT := fn.Signature.Results()
 	if c.isTracked(fn) {
 		c.trackCall(st, fn, args)
@@ -563,6 +576,16 @@ func (c *FnCtx) invoke(fr *Frame, st *State, recv Val, m *types.Func, args []Val
 				// `track M` also counts interface method calls named M (the ghost log has no arguments for them)
 				cnt := c.comp("ghost$calls$"+m.Name(), "Int")
 				c.heapSet(st, cnt, "(+ "+c.heapGet(st, cnt)+" 1)")
+				// latest arguments (argument 0 is the receiver, as for static callees)
+				for k, a := range append([]Val{recv}, args...) {
+					if a.E == "" {
+						continue
+					}
+					name := fmt.Sprintf("ghost$arg$%s$%d", m.Name(), k)
+					c.comp(name, c.ty.SortOf(a.T), a.T)
+					c.trackArgT[name] = a.T
+					st.heap[name] = c.sc.Define(name, c.ty.SortOf(a.T), a.E)
+				}
 			}
 		}
 	}
